@@ -1202,6 +1202,8 @@ class CompositeEnvelope:
             ps = product_states[0]
         # Make sure the order of the states in tensoring is correct
         self.reorder(*states)
+        # Reordering combines states which were not yet in the product state
+        ps = [p for p in self.states if any(so in p.state_objs for so in states)][0]
 
         outcome = ps.measure_POVM(operators, *states, destructive=destructive)
         return outcome
@@ -1283,6 +1285,8 @@ class CompositeEnvelope:
 
         # Make sure the order of the states in tensoring is correct
         self.reorder(*states)
+        # Reordering combines states which were not yet in the product state
+        ps = [p for p in self.states if any(so in p.state_objs for so in states)][0]
 
         ps.apply_kraus(operators, *states)
 
@@ -1318,9 +1322,9 @@ class CompositeEnvelope:
             assert (
                 len(product_states) > 0
             ), "Only one product state should exist at this point"
-        ps = product_states[0]
-
         self.reorder(*states)
+        # Reordering combines states which were not yet in the product state
+        ps = [p for p in self.states if any(so in p.state_objs for so in states)][0]
 
         return ps.trace_out(*states)
 
